@@ -110,9 +110,11 @@ VertexReach16(c, j, sp) ==
       isCap == ~c.closed /\ (j = 1 \/ j = n)
       prev == PtAt(c.pts, IF j = 1 THEN n ELSE j - 1)
       next == PtAt(c.pts, IF j = n THEN 1 ELSE j + 1)
+      \* with a dash pattern any point of the path can be a dash end: a square cap there reaches w/2 * sqrt 2
+      dashCap == IF sp.dash # <<>> /\ sp.cap = "square" THEN (3 * hw) \div 2 + 1 ELSE hw
+      joinR == IF sp.join = "miter" /\ Mitered(PtAt(c.pts, j), prev, next, sp.ml) THEN sp.ml * hw ELSE hw
   IN IF isCap THEN (IF sp.cap = "square" THEN (3 * hw) \div 2 + 1 ELSE hw)
-     ELSE IF sp.join = "miter" /\ Mitered(PtAt(c.pts, j), prev, next, sp.ml) THEN sp.ml * hw
-     ELSE hw
+     ELSE IF joinR > dashCap THEN joinR ELSE dashCap
 
 StrokeMem(tag, g, sp, q, cs0) ==     \* cs0 = StrokeContours(tag, g), computed once per layer
   IF tag = "circle"
